@@ -104,6 +104,16 @@ class RuleContext:
         self.counters: dict[str, int] = {}
         self.analysed_functions: set[str] = set()
         self.rules_run: list[str] = []
+        self.errors: list[str] = []  # AnalysisErrors of isolated sub-rules
+
+    def sub(self, fn, *args, **kwargs):
+        """Run one sub-rule; an AnalysisError in it must not hide the findings of the other
+        sub-rules (it still prevents a 'holds' verdict: see runner)."""
+        try:
+            return fn(*args, **kwargs)
+        except AnalysisError as e:
+            self.errors.append(str(e))
+            return None
 
     # -- recording ---------------------------------------------------------
     def ok(self, rule: str, where: str, what: str) -> None:
